@@ -78,6 +78,11 @@ func (c *segConn) SetWriteDeadline(t time.Time) error { return nil }
 type dgramConn struct {
 	in      [][]byte
 	written [][]byte
+	// deadline bookkeeping (space ids-deadline): every read deadline that was set, and which one was in force at
+	// each Read; pause is slept before every Read after the first so that "now" moves between them
+	rdl    []time.Time
+	readAt []int
+	pause  time.Duration
 }
 
 type timeoutErr struct{}
@@ -87,6 +92,10 @@ func (timeoutErr) Timeout() bool   { return true }
 func (timeoutErr) Temporary() bool { return true }
 
 func (c *dgramConn) Read(p []byte) (int, error) {
+	if c.pause > 0 && len(c.readAt) > 0 {
+		time.Sleep(c.pause)
+	}
+	c.readAt = append(c.readAt, len(c.rdl))
 	if len(c.in) == 0 {
 		return 0, timeoutErr{}
 	}
@@ -106,8 +115,8 @@ func (c *dgramConn) WriteTo(p []byte, a net.Addr) (int, error) { return c.Write(
 func (c *dgramConn) Close() error                               { return nil }
 func (c *dgramConn) LocalAddr() net.Addr                        { return &net.UDPAddr{} }
 func (c *dgramConn) RemoteAddr() net.Addr                       { return &net.UDPAddr{} }
-func (c *dgramConn) SetDeadline(t time.Time) error              { return nil }
-func (c *dgramConn) SetReadDeadline(t time.Time) error          { return nil }
+func (c *dgramConn) SetDeadline(t time.Time) error              { c.rdl = append(c.rdl, t); return nil }
+func (c *dgramConn) SetReadDeadline(t time.Time) error          { c.rdl = append(c.rdl, t); return nil }
 func (c *dgramConn) SetWriteDeadline(t time.Time) error         { return nil }
 
 func c12Body(n int, seed byte) []byte {
@@ -538,6 +547,65 @@ func c12Spaces(c *fw.Ctx) {
 						}
 						r.Sample(func() any { return full })
 					})
+				}
+			}
+		})
+	// "until the matching one or the deadline arrives": the deadline of an exchange is the one it starts with. A
+	// client that arms a fresh read deadline for every reply it skips never reaches it under a trickle of foreign
+	// replies. The scripted socket sleeps 200 ms before each Read after the first, so that a deadline computed
+	// from "now" again lies at least that much later than the first one; only a move of more than 100 ms counts
+	// (a deadline set again to the same instant, or recomputed from the remaining time, does not).
+	c.Space("ids-deadline", "Client.ExchangeWithConn over the scripted datagram socket with 1..3 replies of other IDs before {the matching one, nothing} × client timeouts {default, Timeout 5 s, ReadTimeout 5 s}; the socket lets 200 ms pass between reads and records every read deadline set: the deadline in force at a later read is not more than 100 ms later than the one in force at the first read; non-trivial: all", true,
+		func(emit func(func(*fw.R))) {
+			for n := 1; n <= 3; n++ {
+				for _, tail := range []string{"match", "deadline"} {
+					for cfg := 0; cfg < 3; cfg++ {
+						n, tail, cfg := n, tail, cfg
+						emit(func(r *fw.R) {
+							r.Nontrivial()
+							q := new(dns.Msg)
+							q.SetQuestion("want.example.", dns.TypeA)
+							q.Id = 0x4242
+							var dgrams [][]byte
+							for i := 0; i < n; i++ {
+								m := new(dns.Msg)
+								m.SetReply(q)
+								m.Id = uint16(0x1000 + i)
+								b, _ := m.Pack()
+								dgrams = append(dgrams, b)
+							}
+							if tail == "match" {
+								m := new(dns.Msg)
+								m.SetReply(q)
+								b, _ := m.Pack()
+								dgrams = append(dgrams, b)
+							}
+							cl := &dns.Client{}
+							switch cfg {
+							case 1:
+								cl.Timeout = 5 * time.Second
+							case 2:
+								cl.ReadTimeout = 5 * time.Second
+							}
+							conn := &dgramConn{in: dgrams, pause: 200 * time.Millisecond}
+							rep, _, err := cl.ExchangeWithConn(q.Copy(), &dns.Conn{Conn: conn})
+							if tail == "match" && (err != nil || rep == nil || rep.Id != q.Id) {
+								r.Fail("ids/datagram", "%d replies of other IDs, then the matching one: got %v, err %v", n, rep, err)
+							}
+							if len(conn.readAt) == 0 || conn.readAt[0] == 0 {
+								r.Count("exchanges that read without a deadline set", 1)
+								return
+							}
+							first := conn.rdl[conn.readAt[0]-1]
+							for k, at := range conn.readAt[1:] {
+								if d := conn.rdl[at-1]; d.Sub(first) > 100*time.Millisecond {
+									r.Fail("ids/deadline-extended", "%d replies of other IDs (200 ms apart), client config %d: the read deadline in force at read %d is %v later than the one the exchange started with — every skipped reply re-arms the timeout, the exchange never reaches its deadline", n, cfg, k+2, d.Sub(first))
+									break
+								}
+							}
+							r.Count("reads", int64(len(conn.readAt)))
+						})
+					}
 				}
 			}
 		})
